@@ -36,7 +36,7 @@ ASSUMPTIONS = ["a stepping request is acknowledged only after its save; a write 
                "crash modelled in-process; the thorough tier replays a sample with each incarnation in a child process on a real directory"]
 FAULT_KINDS = ["preemption", "crash_between_requests", "second_crash", "crash_before_open", "torn:zero", "torn:one", "torn:header", "torn:inner", "torn:last",
                "lost_write", "stray_file"]
-PROBES = ["two_concurrent_steps_of_one_instance", "more_than_ten_steps_with_changing_settings", "saves_of_two_instances_interleaved", "stream_abandoned_by_client", "integer_run_specs", "whole_server_save_state", "second_session_in_instance", "restored_with_settings_history", "restored_instance_stepped", "torn_inside_inner_string", "damaged_file_contained",
+PROBES = ["restart_after_long_outage", "whole_server_load_state", "two_concurrent_steps_of_one_instance", "more_than_ten_steps_with_changing_settings", "saves_of_two_instances_interleaved", "stream_abandoned_by_client", "integer_run_specs", "whole_server_save_state", "second_session_in_instance", "restored_with_settings_history", "restored_instance_stepped", "torn_inside_inner_string", "damaged_file_contained",
           "startup_with_stray_file", "several_instances_restored", "never_externalised_instance_exempt", "long_history_restored"]
 THOROUGH_PROBES = ["child_process_cross_check"]
 EXHAUSTIVE = {"quick": False, "thorough": False}
@@ -147,6 +147,19 @@ def gen_history(seed, long=False):
         # state directory, the next server starts and the sessions that were externalised continue)
         ops.insert(rng.randint(1, len(ops)), {"inst": -1, "op": "save_state"})
     ints = {"runspecs": {"starttime": 1, "stoptime": 30, "dt": 1}} if (int_specs == "scenario" and not long) else {}
+    if rng.random() < 0.3 and not long:
+        # POST /load-state at a moment when the state directory is up to date (every instance's last request was a stepping
+        # one): reading everything back changes nothing - also on a server that was itself started from that directory
+        ok_pos = []
+        for pos in range(2, len(ops) + 1):
+            lastop = {}
+            for o in ops[:pos]:
+                if o["inst"] >= 0:
+                    lastop[o["inst"]] = o["op"]
+            if lastop and all(v in ("step", "steps", "stream", "stream_cut") for v in lastop.values()) and not ops[pos - 1].get("pair"):
+                ok_pos.append(pos)
+        if ok_pos:
+            ops.insert(rng.choice(ok_pos), {"inst": -1, "op": "load_state"})
     return {"property": PROPERTY,
             "config": {"adapter": adapter, "list_order": rng.choice(["insertion", "sorted", "reversed"]),
                        "model": {"template": template, "start": 1.0, "stop": 30.0 if not long else 2000.0, "dt": 1.0,
@@ -228,7 +241,10 @@ def plan(tier, verif_seed):
             # after the first / second request that reaches it
             yield {"h": h, "hseed": hseed, "k": k, "fault": None, "stray": None, "long": long, "bg": 1 + (h + k) % 2}
             # one stray-file variant per crash point (file name rotates)
-            yield {"h": h, "hseed": hseed, "k": k, "fault": None, "stray": STRAYS[(h + k) % len(STRAYS)], "long": long}
+            # (every other one of these after a long outage: the new server starts 13 hours after the old one was lost, longer
+            #  than any instance's time-out - externalised sessions are restored whatever their age)
+            yield {"h": h, "hseed": hseed, "k": k, "fault": None, "stray": STRAYS[(h + k) % len(STRAYS)], "long": long,
+                   "outage_us": 13 * 3600 * 10**6 if (h + k) % 2 else 0}
 
 
 def generate(spec):
@@ -240,6 +256,8 @@ def generate(spec):
     case["crash"] = {"k": spec["k"], "fault": spec["fault"], "stray": spec["stray"], "k2": spec.get("k2")}
     if spec.get("bg") is not None:
         case["crash"]["bg"] = spec["bg"]
+    if spec.get("outage_us"):
+        case["crash"]["outage_us"] = spec["outage_us"]
     if spec.get("child"):
         case["child"] = True
     return case
@@ -250,6 +268,10 @@ def _do(w, ids, o, res=None):
     op = o["op"]
     if op == "save_state":
         return w.get("/save-state")
+    if op == "load_state":
+        if res is not None:
+            res.probe("whole_server_load_state")
+        return w.post("/load-state")
     if op == "create":
         r = w.post("/start-instance", {"timeout": {"hours": 12}})
         if r.status == 200 and isinstance(r.body, dict):
@@ -414,6 +436,9 @@ def _run(case, crash, log, res):
             # whatever the new server starts in the background (a restore thread, a timer ...) is scheduled by the driver:
             # it runs to completion before the first request (bg = 0) or only after the bg-th request has been answered
             bg = crash.get("bg")
+            if crash.get("outage_us"):
+                w.clock.advance(crash["outage_us"])
+                res.probe("restart_after_long_outage")
             try:
                 w.boot(background=bg is not None)
             except Exception as e:      # start-up must never fail
